@@ -47,7 +47,12 @@ def write_all(image: bytes, work: str) -> dict:
     # mixed-mode discs: a data track followed by audio tracks is still a sampler image
     audio = ["  TRACK 02 AUDIO\n", '    TITLE "Bonus"\n', "    INDEX 00 00:02:00\n", "    INDEX 01 00:04:00\n"]
     w("xr.bin", image)
-    paths["cue_raw_mixed"] = w("XR.CUE", "".join(cue_text("xr.bin", "MODE1/2048") + audio), "w")      # recognition is by content, not by name
+    # ... written the way ripping tools write it: disc-level lines in front of FILE
+    head = ['REM GENRE "Sampling CD"\n', "REM DATE 1994\n", "CATALOG 0000000000000\n", 'PERFORMER "Various"\n', 'TITLE "Sound Library Vol. 1"\n']
+    paths["cue_raw_mixed"] = w("XR.CUE", "".join(head + cue_text("xr.bin", "MODE1/2048") + audio), "w")      # recognition is by content, not by name
     w("xm.bin", to_mode1_2352(image))
-    paths["cue_mdf_mixed"] = w("xm.cue.txt", "".join(cue_text("xm.bin", "MODE1/2352") + audio + ["  TRACK 03 AUDIO\n", "    INDEX 01 00:09:00\n"]), "w")
+    # ... and with lower-case keywords and CR LF line ends
+    lines = cue_text("xm.bin", "MODE1/2352") + audio + ["  TRACK 03 AUDIO\n", "    INDEX 01 00:09:00\n"]
+    lines = [l.replace("FILE", "file").replace("TRACK", "track").replace("INDEX", "index").replace("BINARY", "binary").replace("\n", "\r\n") for l in lines]
+    paths["cue_mdf_mixed"] = w("xm.cue.txt", "".join(lines).encode("ascii"))
     return paths
